@@ -46,7 +46,7 @@ MC_CONFIGS = {
     "canary_t": mc("MC_canary", "SpecCanary", env=1, edit=1, ann=0, agecap=2),   # 599 k distinct states, 2 min
     "canary_t2": mc("MC_canary", "SpecCanary", env=0, edit=1, ann=2, agecap=2),
     "canary_fail_q": mc("MC_canary", "SpecCanary", strat="MC_StratFailFast", env=1, edit=1, ann=0, agecap=2, kinds='{"restart"}'),
-    "canary_fail_t": mc("MC_canary", "SpecCanary", strat="MC_StratFailFast", env=1, edit=1, ann=1, agecap=2, kinds='{"restart", "fail"}'),   # (with "unready": 6.3 M states, 29 min)
+    "canary_fail_t": mc("MC_canary", "SpecCanary", strat="MC_StratFailFast", env=1, edit=1, ann=1, agecap=2, kinds='{"restart"}'),   # ({restart, fail}: 5.96 M states, 18 min; with "unready" 6.3 M)
     "fine_q": mc("MC_canary", "SpecFine", strat="MC_StratFailFast", env=1, edit=1, ann=0, agecap=2, kinds='{"restart"}', fault=1),
     "fine_t": mc("MC_canary", "SpecFine", strat="MC_StratFailFast", env=1, edit=1, ann=1, agecap=2, kinds='{"restart"}', fault=2),   # (edit=2, {restart, fail}: > 12 M states, not finished in 40 min)
     "canary_narrow_t": mc("MC_canary", "SpecCanary", env=1, edit=1, ann=0, agecap=2, kinds='{"narrow", "lost"}'),
